@@ -226,7 +226,7 @@ Hypothesis f_tosize_benign : forall r t, f_tosize r = UB t -> benign t.
 
 Lemma msafe_update_header : forall b, msafe (update_header f_key f_tosize f_div b).
 Proof.
-  intros b. unfold update_header.
+  intros b. unfold update_header, uh_rate_points, uh_analogs, uh_frames, byframe_step, analog_rate_step.
   repeat first [ apply msafe_int0 | apply msafe_float0 | apply msafe_get_group
                | apply msafe_lift; intros t H; first [eapply f_key_benign; exact H | eapply f_tosize_benign; exact H]
                | mstep ].
